@@ -1,6 +1,6 @@
 PROPERTY = dict(
     level='model_checking',
-    level_text='Reduced scope. Bounded model checking of the real dependency-file readers: (D1) every path of the stated length over the characters special to the Makefile format, written with the documented escaping, is recovered byte for byte by lexWord, which also stops exactly at the end of the escaped text (followed by a separator or by the end of the file); (D2) a well-framed dependency-info file delivers every record once, in order, under the right callback, operand byte for byte; malformed framing and truncated escapes are C19 (H2, H3). The hand-off from ShellCommand to the engine (absolute-path resolution, discoveredDependency, failing the command on a parser error) and the later re-execution (C01-O6/O2) are NOT decided by this check.',
+    level_text='Reduced scope. Bounded model checking of the real dependency-file readers: (D1) every path of the stated length over the characters special to the Makefile format, written with the documented escaping, is recovered byte for byte by lexWord, which also stops exactly at the end of the escaped text (followed by a separator or by the end of the file); (D2) a well-framed dependency-info file delivers every record once, in order, under the right callback, operand byte for byte; malformed framing and truncated escapes are C19 (H2, H3). (D3) the hand-off of ShellCommand::processMakefileDiscoveredDependencies: with the parser replaced by its contract (raw slice + unescaped word), the UNESCAPED path - joined to the working directory iff relative - is registered once as a discovered dependency on its node key.  The later re-execution is C01-O6/O2; the dependency-info hand-off and the error path are not decided.',
     level_note='Trusted: clang-14 -O1 IR, ir2c (validated each run), CBMC+SAT. The writer used for D1 is the documented escaping, implemented in the harness.',
     bounds='paths 0..3 bytes (thorough 0..5) over {a, space, #, $, backslash, /, ., 0x80}; 1..2 records with operands of 1..2 non-NUL bytes',
     outside='ShellCommand::processDiscoveredDependencies (path resolution against the working directory, FFI getcwd); multi-rule dependency files (MakefileDepsParser::parse as a whole: C19-H2b, n <= 1); colons inside paths',
@@ -12,4 +12,12 @@ OBLIGATIONS = [
          params_quick=[{'VF_N': n} for n in range(0, 4)], params_thorough=[{'VF_N': n} for n in range(0, 6)], unwind_thorough=16),
     dict(name='D2.records', harness='C11/h_records.cpp', entry='harness_records', tus=['lib/llvm/Support/StringRef.cpp'], noinline=['DependencyInfoParser5parseEv'], expect_functions=['DependencyInfoParser5parseEv'],
          unwind=12, params_quick=[{'VF_R': r, 'VF_L': l} for r in (1, 2) for l in (1, 2)]),
+    dict(name='D3.handoff', harness='C11/h_handoff.cpp', entry='harness_handoff', models=['engine'],
+         tus=['lib/BuildSystem/ShellCommand.cpp', 'lib/BuildSystem/ExternalCommand.cpp', 'lib/BuildSystem/BuildKey.cpp', 'lib/BuildSystem/BuildDescription.cpp'],
+         stubs=['BuildSystem11getDelegateEv$=stub_getDelegate', '^_ZN7llbuild4core18MakefileDepsParser5parseEv$=stub_parse', 'TaskInterface20discoveredDependencyERKNS0_7KeyTypeE$=stub_discovered',
+                '^_ZN4llvm3sys4path11is_absoluteERKNS_5TwineENS1_5StyleE$=stub_is_absolute', '^_ZN4llvm3sys4path6appendERNS_15SmallVectorImplIcEERKNS_5TwineES7_S7_S7_$=stub_path_append',
+                '^_ZN4llvm3sys2fs13make_absoluteERNS_15SmallVectorImplIcEE$=stub_make_absolute'],
+         noinline=['ShellCommand37processMakefileDiscoveredDependencies'], expect_functions=['ShellCommand37processMakefileDiscoveredDependencies'],
+         stub_virtual=['ShellCommand(?!37)', 'ExternalCommand', '^_ZNK?7llbuild11buildsystem7Command(?!D)', 'JobDescriptor', 'MakefileDepsParser12ParseActions'], allow_external=['^_ZTV'], assert_external=['.'],
+         unwind=8, params_quick=[{'VF_N': n} for n in (1, 2, 3)], timeout=600, cbmc_flags=['--object-bits', '10']),
 ]
